@@ -20,13 +20,16 @@
    proved at the token boundaries of the parser model (each parser function that
    consumes an operator, a parenthesis, an index bracket or the outer trim gives
    a result independent of the spelling and of the white space around it); the
-   composition over whole filters is [C07_full], validated by the correspondence
-   check only. *)
+   composition over whole filters is proved for the surface grammar of Spec/Grammar.v
+   ([C07_whole_filter_layout_partial]: two texts of the grammar - any white space, any spelling of every
+   operator, any literal notation that the AST keeps - that stand for the same structure parse to the same
+   AST, hence the same JSON and hash); for the constructs the grammar does not describe yet the
+   composition ([C07_full]) is validated by the correspondence check only. *)
 From Coq Require Import List ZArith NArith Bool String Lia.
 From WF Require Import Base.Bytes Base.Sexp Sem.RangeSet Lang.Types Lang.Ast Sem.TypeCodec Sem.JsonText
      Parse.Lex Sem.Compile Parse.Parser Spec.Typing Sem.AstJson Spec.C07
      Proofs.AstJsonProofs Proofs.LayoutProofs Proofs.JsonPrintProofs Proofs.AstJsonInj Proofs.IpTextInj
-     Proofs.LitsTyped Proofs.ParserClosed Proofs.C07Proofs Proofs.IpsProofs.
+     Proofs.LitsTyped Proofs.ParserClosed Proofs.C07Proofs Proofs.IpsProofs Spec.Grammar Proofs.GrammarProofs.
 Import ListNotations.
 Open Scope N_scope.
 
@@ -196,6 +199,16 @@ Theorem C07_paren_layout_partial : forall sch st f d ws r,
   layout_ws ws -> d < st_max_depth st ->
   lex_simple sch st (S f) d (40 :: ws ++ r) = lex_simple sch st (S f) d (40 :: r).
 Proof. exact paren_layout. Qed.
+
+(* ---- whole filters: layout and spelling are invisible (for the texts of Spec/Grammar.v) ---- *)
+Theorem C07_whole_filter_layout_partial : forall sch st t1 t2 e,
+  GFilter sch st t1 e -> GFilter sch st t2 e ->
+  parse_filter sch st t1 = LOk e [] /\ parse_filter sch st t2 = LOk e [].
+Proof.
+  intros sch st t1 t2 e H1 H2.
+  split; [exact (filter_grammar_parses sch st t1 e H1)|exact (filter_grammar_parses sch st t2 e H2)].
+Qed.
+(* the JSON text and the hash are functions of the AST (C07_json_is_canonical_document), so they agree too *)
 
 (* ---- non-vacuity ---- *)
 
